@@ -578,6 +578,11 @@ pub fn push_sweep(exps: &mut Vec<Exp>, depth: usize) {
     alpha.push(Act::EngConfig { by: "owner".into(), imr: None, mmr: None, plr: Some(D + 50_000), lf: None });
     alpha.push(Act::EngConfig { by: "owner".into(), imr: None, mmr: None, plr: None, lf: Some(D + 50_000) });
     alpha.push(Act::EngConfig { by: "owner".into(), imr: Some(10_000), mmr: Some(900_000), plr: None, lf: None });
+    // degenerate inputs: zero amounts and zero leverage (an accepted one is then judged like any other operation)
+    alpha.push(Act::Dep { t: "alice".into(), v: 0, amt: 0 });
+    alpha.push(Act::Wd { t: "alice".into(), v: 0, amt: 0 });
+    alpha.push(Act::Open { t: "alice".into(), v: 0, buy: true, margin: 0, lev: 2 * D, limit: 0 });
+    alpha.push(Act::Open { t: "alice".into(), v: 0, buy: false, margin: 5 * D, lev: 0, limit: 0 });
     let seeds = vec![
         vec![],
         seed_liquidatable(),
